@@ -13,17 +13,17 @@ Proof. exact (conj src_be_format_catch_all (conj src_be_format_catch_std src_be_
 Print Assumptions C10_tie_catches.
 
 (* whatever a user formatter throws, nothing escapes the decode loop ... *)
-Theorem C10_no_escape : forall K fuel tn, c_catch_all K = true -> forall x total notes,
-  snd (read_loop K fuel tn x total notes) = false.
+Theorem C10_no_escape : forall K fuel lim tn, c_catch_all K = true -> forall x total notes,
+  snd (read_loop K fuel lim tn x total notes) = false.
 Proof. exact read_loop_no_escape. Qed.
 Print Assumptions C10_no_escape.
 
 (* ... and the record is consumed: it moves to the transit buffer with exactly the notifications of
    its own formatting outcome (one for a failing formatter, none otherwise) *)
-Theorem C10_record_consumed : forall K tn x e rest q1 off, c_catch_all K = true ->
+Theorem C10_record_consumed : forall K lim tn x e rest q1 off, c_catch_all K = true ->
   prepare_read ideal (c_cap K) (q x) = (q1, Some off) -> qev x = e :: rest ->
   (negb (c_grace K =? 0) && (tn <? ets e)) = false ->
-  exists x1 total notes, read_loop K 1 tn x 0 [] = (x1, total, notes, false) /\
+  exists x1 total notes, read_loop K 1 lim tn x 0 [] = (x1, total, notes, false) /\
     qev x1 = rest /\ tbuf x1 = tbuf x ++ [e] /\ total = esz e /\ notes = fmt_notes e.
 Proof. exact read_one_consumes. Qed.
 Print Assumptions C10_record_consumed.
